@@ -84,6 +84,15 @@ impl List for UniqueList {
     }
 }
 
+#[cfg(reclass_rs_verif)]
+impl UniqueList {
+    /// Verification hook: returns the list's items.
+    #[must_use]
+    pub fn verif_items(&self) -> &[String] {
+        &self.items
+    }
+}
+
 #[cfg(test)]
 mod unique_list_tests {
     use super::*;
